@@ -116,4 +116,24 @@ PROPS = {
                       "on exhaustive small strings.",
         "level_note": "Partial: lexeme level proved; bytes-to-lexemes glue and parametric rules rest on the correspondence check.",
     },
+    "C10": {
+        "runner": "RunEngine",
+        "theorems": ["C10_sliced_mask_equals_unsliced", "C10_slice_contribution", "C10_unsound_containment_breaks_it"],
+        "rule": "JSON schemas (strings with maxLength 5/10/12/31, patterns, formats, enums sharing prefixes with long tokens, "
+                "arrays, objects) and Lark grammars with bounded string-like terminals; vocabulary with tokens of many lengths "
+                "(runs of 9..40 characters, multi-byte characters); three engines per case: no slices, general_slices, a random "
+                "valid slice list; masks compared bit for bit at every state of a mask-guided walk; slices_applied measured. "
+                "Lark sessions of the sliced engine are replayed on the (unsliced) model. non-trivial = Lark sessions replayed on the model",
+        "trusted_base": ["modelled, not verified: slicer.rs TokenizerSlice::apply / SlicedBiasComputer::compute_bias as a set-level "
+                         "decision structure (coq/Slicer.v); the containment test (derivre is_contained_in_prefixes / check_subsume) "
+                         "is an oracle assumed sound; construction of the slice tries (filter) is covered by C16",
+                         "the tie of Slicer.v to the code is structural only (no executable correspondence for the oracle); the "
+                         "behavioural tie is sliced implementation = unsliced implementation = unsliced model"],
+        "assumptions": ["oracle_sound: a slice accepted by the containment test consists of tokens the engine accepts"],
+        "level_text": "Theorem for every slice tree and every sound containment oracle: the sliced mask equals the unsliced one bit "
+                      "for bit (and a witness that soundness is necessary). On the implementation, masks of engines with default, "
+                      "random and no slices are compared at every visited state, and the sliced engine is compared with the model.",
+        "level_note": "Proof modulo the containment oracle (external crate). The gate subsume_possible and the lazy-lexeme "
+                      "exclusion are not proved to imply oracle soundness; a wrong gate shows up as a mask difference in the harness.",
+    },
 }
